@@ -222,3 +222,26 @@ Proof.
   destruct (n <=? 4294967295); [simpl; apply le_enc_ok with (w := 4%nat)|].
   simpl. apply le_enc_ok with (w := 8%nat).
 Qed.
+
+(* ---- take_upto *)
+Lemma take_upto_spec : forall bs n h t, take_upto bs n = (h, t) ->
+  bs = h ++ t /\ N.of_nat (length h) <= n.
+Proof.
+  induction bs as [|b r IH]; intros n h t H; cbn [take_upto] in H.
+  - destruct (n =? 0); inversion H; subst; split; auto; simpl; lia.
+  - destruct (n =? 0) eqn:Z.
+    + inversion H; subst. split; auto. simpl. lia.
+    + apply N.eqb_neq in Z. destruct (take_upto r (N.pred n)) as [h' t'] eqn:E.
+      inversion H; subst. apply IH in E. destruct E as [E1 E2]. subst r. split; [reflexivity|].
+      simpl length. lia.
+Qed.
+
+Lemma take_upto_app : forall h t, take_upto (h ++ t) (N.of_nat (length h)) = (h, t).
+Proof.
+  induction h as [|b h IH]; intros t.
+  - simpl. destruct t; reflexivity.
+  - cbn [app take_upto]. replace (N.of_nat (length (b :: h)) =? 0) with false
+      by (symmetry; apply N.eqb_neq; simpl length; lia).
+    replace (N.pred (N.of_nat (length (b :: h)))) with (N.of_nat (length h)) by (simpl length; lia).
+    rewrite IH. reflexivity.
+Qed.
